@@ -502,6 +502,16 @@ type Contract struct {
 	Params    []string // for extern contracts: parameter names
 	AllowExit bool
 	MakeLimit bool // opt-in: every make([]T, n) must also prove n*sizeof(T) <= 2^48 (runtime allocation limit)
+	Callbacks []*Callback
+}
+
+// Callback (extern contracts): `callback fn x y v : dom` states that the callee calls its function parameter fn only
+// with argument tuples (x, y, v) satisfying dom (evaluated in the pre-state), at most once per tuple, in states that
+// differ from the pre-state by the callee's modifies set only. fnres(fn, x, y, v) in the ensures is the value returned.
+type Callback struct {
+	Fn   string
+	Vars []string
+	Dom  *Clause
 }
 
 type PureFunc struct {
@@ -561,7 +571,7 @@ var clauseKeywords = map[string]bool{
 	"func": true, "pure": true, "opaque": true, "ground": true, "sealed": true, "props": true, "requires": true, "ensures": true, "modifies": true,
 	"loop": true, "invariant": true, "decreases": true, "assert_at": true, "table": true, "axiom": true,
 	"lemma": true, "inline": true, "hint": true, "chaninv": true, "arith": true, "trusted": true, "cover": true, "note": true,
-	"maypanic": true, "noauto": true, "cases": true, "float": true, "ghostzero": true, "params": true, "allowexit": true, "extern": true, "makelimit": true,
+	"maypanic": true, "noauto": true, "cases": true, "float": true, "ghostzero": true, "params": true, "allowexit": true, "extern": true, "makelimit": true, "callback": true,
 }
 
 // parseTags parses an optional "[C01,C02]" or "[name]" prefix
@@ -866,6 +876,17 @@ func ParseSpecFile(path, pkg, content string) (*SpecFile, error) {
 			if cur != nil {
 				cur.Asserts = append(cur.Asserts, c)
 			}
+		case "callback":
+			j := strings.Index(rest, ":")
+			f := strings.Fields(rest[:max(j, 0)])
+			if j < 0 || len(f) < 1 || cur == nil {
+				return nil, fmt.Errorf("%s:%d: callback needs '<function parameter> <argument names...> : <domain>' inside a contract", path, l.line)
+			}
+			c, err := mkClause(kw, rest[j+1:], l.line)
+			if err != nil {
+				return nil, err
+			}
+			cur.Callbacks = append(cur.Callbacks, &Callback{Fn: f[0], Vars: f[1:], Dom: c})
 		case "inline":
 			if cur != nil {
 				cur.Inline = true
